@@ -375,6 +375,21 @@ def run(rep):
             continue
         # R01.a
         branch_agreement(rep, "R01.a", name, file, "_forward", fw[0], "_backward", bw[0], line)
+        # a nan-mask inside _forward may only cut where the formula itself is undefined: its threshold is the boundary of the first log / power
+        # argument, up to the EPS constant - a mask at a constructor option (mininu) returns NaN on points the inverse would recover
+        for c in (fw[0] if name not in OUTSIDE_CHAIN else []):          # (the transforms outside the chain vocabulary are modelled by computer algebra, R01.g)
+            for dcond in c.domains:
+                cons = f"{name}._forward [{case_text(c)}]: nan-mask {F.show(dcond)} cuts only where the formula is undefined"
+                try:
+                    from . import c02 as _c02
+                    okd, detd = _c02.domain_ok(dcond, F.to_chain(c.expr), None, tol={"EPS"})
+                except Undecided as ex:
+                    okd, detd = None, str(ex)
+                if okd is None:
+                    rep.undecided("R01.e", file, f"{name}._forward", cons, detd, line=tc.methods["_forward"].lineno)
+                else:
+                    rep.check(okd, "R01.e", file, f"{name}._forward", cons, detd + ("" if okd else ": forward is NaN on a band of its domain while _backward still inverts the unmasked formula"),
+                              line=tc.methods["_forward"].lineno)
         for m_ in ("_forward", "_backward"):
             shortcut_agreement(rep, "R01.a", name, file, m_, res[m_][0], res.get("shortcuts:" + m_, []), line)
         # R01.b
